@@ -20,7 +20,7 @@ Notation run := (ft_run digest H deq zdecomp unzl).
 Notation line_of := (ft_line digest).
 Notation dec := (ft_decode zdecomp).
 Notation dec1 := (ft_decode1 unzl).
-Notation rv2 c cp := (recv_v2 digest H deq (dec c cp) None).
+Notation rv2 c cp := (recv_v2_sched digest H deq (dec c cp) None).   (* = recv_v2 for every schedule: Proofs/Protocol.v recv_v2_eq *)
 Notation rv1 c := (recv_v1 digest H deq (dec1 c)).
 Notation ghost := (ft_ghost digest).
 Notation saved := (ft_saved digest).
@@ -240,7 +240,7 @@ Proof.
         destruct (tr_blen w =? size) eqn:S; [|inv_easy].
         cbn [fst]. unfold ft_inv; cbn. rewrite Pp. apply N.eqb_eq in S. subst size cp.
         split; [exact S|]. intro rest. rewrite map_app, <- app_assoc. cbn [map app ft_line].
-        rewrite Eq. cbn [recv_v2]. unfold ft_decode at 1. rewrite D.
+        rewrite Eq. cbn [recv_v2_sched]. unfold ft_decode at 1. rewrite D.
         rewrite blen_eqb, S, N.eqb_refl. unfold md5_tail, md5_verdict.
         destruct rest as [|[f2|d2| |] rest]; reflexivity.
       * cbn [fst]. unfold ft_inv; cbn. repeat split; auto. intro rest.
@@ -303,7 +303,7 @@ Proof.
   destruct (ft_digest_answer c dest st _ _ A) as (p' & w' & d' & Ph' & Em & Q & Ed).
   rewrite Ph in Ph'. inversion Ph'; subst p' w'. inversion Em; subst d'. subst d.
   split; [exact Ph|]. split; [rewrite R; reflexivity|]. split; [exact A|].
-  unfold ft_verdict, ft_ghost_step. rewrite Ph. cbn [fv_size fv_cp fv_msgs fv_content fg_msgs fg_size fg_cp].
+  unfold ft_verdict, ft_ghost_step. rewrite Ph, recv_v2_eq. cbn [fv_size fv_cp fv_msgs fv_content fg_msgs fg_size fg_cp].
   unfold ft_inv in Inv. rewrite Ph in Inv. destruct (tr_pipeline c).
   - destruct Inv as [_ Eq]. rewrite map_app. cbn [map ft_line]. rewrite Eq. cbn [md5_tail]. rewrite Q. reflexivity.
   - destruct Inv as [_ Eq]. rewrite map_app, app_length. cbn [map ft_line length]. rewrite Eq. cbn [md5_tail]. rewrite Q. reflexivity.
@@ -329,7 +329,7 @@ Proof.
   destruct (ft_digest_answer c dest _ _ _ A) as (p' & w' & d' & Ph' & Em & Q & _).
   rewrite Ph in Ph'. inversion Ph'; subst p' w'. inversion Em; subst d'. apply deq_spec in Q.
   split; [exact Q|]. unfold ft_verdict in V. split; intro Pp; rewrite Pp in V.
-  - destruct (recv_v2_sound digest H deq deq_spec _ None _ _ _ _ V) as (w & _ & _ & [[<- S]|(k & Ek & _)]); [|discriminate].
+  - destruct (recv_v2_sound digest H deq deq_spec _ None _ _ _ _ V) as (_ & S & _).
     unfold tr_blen. lia.
   - destruct (recv_v1_sound digest H deq deq_spec _ _ _ _ _ _ V) as (d & _ & _ & S & _).
     unfold tr_blen. lia.
@@ -348,8 +348,8 @@ Proof.
   destruct (ft_saved_sound c dest f0 sch ms sv In1) as (Ed & _).
   destruct (ft_saved_bridge c dest ms _ _ (ft_inv_init c f0 sch) sv In1) as (_ & _ & _ & V).
   unfold ft_verdict in V. destruct (tr_pipeline c).
-  - apply (recv_v2_no_silent_no_race digest H deq deq_spec _ None _ _ src _ eq_refl V); [|exact C].
-    intros d M. destruct (recv_v2_sound digest H deq deq_spec _ None _ _ _ _ V) as (w & _ & M2 & [[<- _]|(k & Ek & _)]); [|discriminate].
+  - apply (recv_v2_no_silent digest H deq deq_spec _ None _ _ src _ V); [|exact C].
+    intros d M. destruct (recv_v2_sound digest H deq deq_spec _ None _ _ _ _ V) as (_ & _ & M2).
     rewrite M2 in M. inversion M; subst d. rewrite <- Ed. exact U.
   - apply (recv_v1_no_silent digest H deq deq_spec _ _ _ _ src _ V); [|exact C].
     intros d _ E. apply U. exact Ed.
